@@ -202,6 +202,100 @@ def verdict (p : Tm) : Verdict :=
   | v => v
 
 -- ---------------------------------------------------------------------------------------------
+-- aggregate and window calls are produced by an operator below, or they are references to nothing
+-- ---------------------------------------------------------------------------------------------
+
+/-- Heads of aggregate calls, window calls and the two nullary ones.  `Evaluator::eval` HAS arms for
+them (an aggregate "evaluates" to its argument, `rowcount` / `row_number` to NULLs: that is how the
+aggregation and window executors compute the arguments they feed to the aggregate states), so an
+aggregate call left in a scalar position — a projection, a filter, an order key, a join condition
+— builds and runs and silently yields the argument instead of the aggregate.  Such a call is a
+reference to a column its input does not produce (C17: "every column an operator references is
+produced by its input"). -/
+def aggHeadNames : List String :=
+  ["sum", "count", "min", "max", "first", "last", "count-distinct", "avg", "rowcount", "row_number", "over"]
+
+def isAggHd : Hd → Bool
+  | .other c => (aggHeadNames.map (fun s => s.hash.toNat)).contains c
+  | _ => false
+
+def isOverHd : Hd → Bool
+  | .other c => c == "over".hash.toNat
+  | _ => false
+
+mutual
+  /-- Scalar position: every aggregate / window call in the expression is an entry of the input's
+  schema (a column computed below).  Plans inside an expression (subqueries) are not entered. -/
+  def scalarOk (agg : Hd → Bool) (sch : List Tm) : Tm → Bool
+    | .col _ _ => true
+    | .leaf _ => true
+    | .node h xs => sch.contains (.node h xs) || planHead h || (!agg h && scalarOkList agg sch xs)
+  def scalarOkList (agg : Hd → Bool) (sch : List Tm) : List Tm → Bool
+    | [] => true
+    | x :: xs => scalarOk agg sch x && scalarOkList agg sch xs
+end
+
+mutual
+  /-- The nodes `Evaluator::eval` visits on rows of the schema `sch` (entries of the schema are
+  column indices and not looked into; a plan is not an expression). -/
+  def visited (sch : List Tm) : Tm → List Tm
+    | .col _ _ => []
+    | .leaf _ => []
+    | .node h xs => if sch.contains (.node h xs) || planHead h then [] else .node h xs :: visitedList sch xs
+  def visitedList (sch : List Tm) : List Tm → List Tm
+    | [] => []
+    | x :: xs => visited sch x ++ visitedList sch xs
+end
+
+/-- The arguments of a call are scalar. -/
+def callArgsOk (agg : Hd → Bool) (sch : List Tm) : Tm → Bool
+  | .node _ xs => scalarOkList agg sch xs
+  | _ => true
+
+/-- An item of the list of an aggregation / window operator: the call itself is what the operator
+computes, its arguments are scalar; `(over f partition order)`: `f` is the call. -/
+def aggItemOk (agg over : Hd → Bool) (sch : List Tm) : Tm → Bool
+  | .node h xs =>
+    if sch.contains (.node h xs) then true
+    else if over h then
+      match xs with
+      | f :: rest => callArgsOk agg sch f && scalarOkList agg sch rest
+      | [] => false
+    else if agg h then scalarOkList agg sch xs
+    else scalarOk agg sch (.node h xs)
+  | _ => true
+
+def aggItemsOk (agg over : Hd → Bool) (sch : List Tm) : List Tm → Bool
+  | [] => true
+  | x :: xs => aggItemOk agg over sch x && aggItemsOk agg over sch xs
+
+def obligationsScalar (agg : Hd → Bool) : List (List Tm × Tm) → Bool
+  | [] => true
+  | (sch, e) :: rest => scalarOk agg sch e && obligationsScalar agg rest
+
+/-- The expressions of one operator reference only aggregate / window values computed below it. -/
+def aggRefsNode (agg over : Hd → Bool) : Tm → Bool
+  | .node .agg [as, c] => aggItemsOk agg over (schema c) (listItems as)
+  | .node .hashagg [ks, as, c] => scalarOk agg (schema c) ks && aggItemsOk agg over (schema c) (listItems as)
+  | .node .sortagg [ks, as, c] => scalarOk agg (schema c) ks && aggItemsOk agg over (schema c) (listItems as)
+  | .node .window [es, c] => aggItemsOk agg over (schema c) (listItems es)
+  | n => obligationsScalar agg (nodeObligations n)
+
+mutual
+  /-- Every operator of the plan references only aggregate / window values computed below it. -/
+  def aggRefsCheck (agg over : Hd → Bool) : Tm → Bool
+    | .col _ _ => true
+    | .leaf _ => true
+    | .node h xs => if planHead h then aggRefsNode agg over (.node h xs) && aggRefsCheckList agg over xs else true
+  def aggRefsCheckList (agg over : Hd → Bool) : List Tm → Bool
+    | [] => true
+    | x :: xs => aggRefsCheck agg over x && aggRefsCheckList agg over xs
+end
+
+/-- As read from plan text. -/
+def aggRefsProduced (p : Tm) : Bool := aggRefsCheck isAggHd isOverHd p
+
+-- ---------------------------------------------------------------------------------------------
 -- apply_proj (rules/plan.rs) for `pushdown-proj-order`
 -- ---------------------------------------------------------------------------------------------
 
